@@ -64,8 +64,8 @@ GUARDED = {
     "rec-index-assign": ("make a get [[1]]\ndo f(n) start\n a[0][f(n add 1)] get n\n return 0\nend\nshout(f(0))\n",
                          [[EE, FC, BL, ST, "Runtime_assign_index", "Runtime_eval_index_value"]]),
     "rec-array-literal": ("do f(n) start\n return [n, [f(n add 1)], 3]\nend\nshout(f(0))\n", [MAIN, [EE]]),
-    "rec-nested-blocks": ("do f(n) start\n start start start start\n  return f(n add 1)\n end end end end\nend\nshout(f(0))\n", [MAIN, [ST, BL]]),
-    "rec-in-loop-body": ("do f(n) start\n make i get 0\n jasi (i small pass 3) start\n  if to say (i na 1) start\n   return f(n add 1)\n  end\n  i get i add 1\n end\n return 0\nend\nshout(f(0))\n", [MAIN, [ST, BL]]),
+    "rec-nested-blocks": ("do f(n) start\n start start start start\n  return f(n add 1)\n end end end end\nend\nshout(f(0))\n", [[EE, FC, BL, ST, BL, ST, BL, ST]]),
+    "rec-in-loop-body": ("do f(n) start\n make i get 0\n jasi (i small pass 3) start\n  if to say (i na 1) start\n   return f(n add 1)\n  end\n  i get i add 1\n end\n return 0\nend\nshout(f(0))\n", [[EE, FC, BL, ST, BL, ST, BL, ST]]),
     "rec-else-branch": ("do f(n) start\n if to say (n small pass 0) start\n  return 0\n end if not so start\n  return f(n add 1)\n end\nend\nshout(f(0))\n", [MAIN]),
     "rec-method-receiver": ("do f(n) start\n return to_string(f(n add 1)).len()\nend\nshout(f(0))\n", [[EE, FC, MC], [EE, FC, BC]]),
     "rec-method-argument": ("do f(n) start\n return \"abcdef\".slice(0, f(n add 1)).len()\nend\nshout(f(0))\n",
@@ -498,6 +498,7 @@ def source_of(case):
 
 def replay(env, payload):
     case = payload.get("case") or {}
+    case = case.get("case", case)
     src = source_of(case)
     if src is None:
         print("replay: no concrete input in this file (obligations: %s)" % payload.get("no_longer_checks"))
